@@ -395,7 +395,10 @@ def parse_rel_expr(lexer):
         and lexer.peek().type in ["operator", "keyword"]
     ):
         relop = lexer.next().value
-        if relop == "is" and lexer.peek().value == "not":
+        if relop == "is" and (
+            lexer.peekn(1, "not", "keyword")
+            or lexer.peekn(1, "not", "operator")
+        ):
             relop = "is not"
             lexer.eat(1)
         pos = lexer.getPos()
